@@ -285,7 +285,8 @@ def compare_error(c, obs, err, tol):
     if md <= tol * S * 4:
         return True, False, md, ''
     # sign-canonical convention for the SE(3) error quaternion (w < 0 => negated vector part) is accepted as well
-    if c['fam'] == 'odo' and c['k'] == 'SE3' and obs['w'][0] < 0:
+    # (w == 0: the error is exactly a half turn, the sign of its quaternion is undetermined - both representatives are accepted)
+    if c['fam'] == 'odo' and c['k'] == 'SE3' and obs['w'][0] <= 0:
         devs2 = [abs(err[j] - (1 if j < 3 else -1) * exp[j][0] / exp[j][1]) for j in range(6)]
         if max(devs2) <= tol * S * 4:
             return True, True, max(devs2), ''
